@@ -34,7 +34,7 @@ def setup(run):
     return fixmon.attach_all(run, rt)
 
 
-def gen_case(rng, big=False, no_gc=False, empty_anti=False, lone=False):
+def gen_case(rng, big=False, no_gc=False, empty_anti=False, lone=False, dead_anti=False):
     prefix = "chr" if rng.random() < 0.7 else ""
     pool = ["1", "2", "3", "11", "X", "Y"]
     nchr = int(rng.integers(1, 6))
@@ -124,6 +124,8 @@ def gen_case(rng, big=False, no_gc=False, empty_anti=False, lone=False):
     slog = np.clip(slog, -8.0, 12.0)
     sdepth = np.round(np.exp2(slog), 6) + 1e-6
     nulls = rng.random(n) < (0.06 if rng.random() < 0.4 else 0.0)
+    if dead_anti:
+        nulls = nulls | (kind == "a")       # amplicon-like sample: no off-target bin has any coverage
     slog[nulls] = -20.0
     sdepth[nulls] = 0.0
     samp = ref[["chromosome", "start", "end", "gene"]].copy()
@@ -142,17 +144,17 @@ def _cna(df, sid="S"):
 
 
 def _n(tier):
-    return 288 if tier == "quick" else 2880
+    return 384 if tier == "quick" else 3840
 
 
 def case_fix(run, i):
     import cnvlib.fix as FX
     rng = run.rng("fix", i)
     variant = (i // 8) % 6
-    corner = (i // 48) % 3        # 0: as drawn; 1: reference without gc column + no antitargets; 2: a chromosome with a single on-target bin
-    tgt, anti, ref, info = gen_case(rng, big=run.tier != "quick", no_gc=corner == 1, empty_anti=corner == 1, lone=corner == 2)
+    corner = (i // 48) % 4        # 0: as drawn; 1: reference without gc column + no antitargets; 2: a chromosome with a single on-target bin; 3: no antitarget bin covered
+    tgt, anti, ref, info = gen_case(rng, big=run.tier != "quick", no_gc=corner == 1, empty_anti=corner == 1, lone=corner == 2, dead_anti=corner == 3)
     opts = dict(do_gc=bool(i & 1), do_edge=bool(i & 2), do_rmask=bool(i & 4))
-    cls = "fix:" + ("flat" if info["flat"] else "pooled") + ":" + "".join(k[3] for k, v in opts.items() if v) + ["", ":nogc-noanti", ":lone-target"][corner]
+    cls = "fix:" + ("flat" if info["flat"] else "pooled") + ":" + "".join(k[3] for k, v in opts.items() if v) + ["", ":nogc-noanti", ":lone-target", ":antitargets-uncovered"][corner]
     if variant == 4:
         # refusal: a sample bin missing from the reference / duplicated coordinates
         which = int(rng.integers(0, 3))
